@@ -158,7 +158,9 @@ def cmd_run(args):
         for (case, sig, detail) in res["fails"]:
             agg["fails"].append((fl_entry, case, sig, detail))
         agg["info"].update({lab + ":" + k: v for k, v in res["info"].items()})
-        agg["incomplete"] += [lab + ":" + x for x in res["incomplete"]]
+        for x in res["incomplete"]:
+            if lab + ":" + x not in agg["incomplete"]:
+                agg["incomplete"].append(lab + ":" + x)
         agg["sections"] += [(lab + ":" + n, w) for (n, w) in res["sections"]]
         if not args.only:
             for s, n in res["require"].items():
@@ -225,7 +227,7 @@ def cmd_run(args):
 
     def total(suffix):
         return sum(v for k, v in st.items() if k.endswith("." + suffix))
-    evaluations = total("cases")
+    evaluations = total("executed") or total("cases")
     states = total("states")
     transitions = total("transitions") or total("ops") or evaluations
     nontrivial = total("nontrivial")
